@@ -3,7 +3,7 @@
 Family 'hist' (the *history* and *configuration* quantifiers).  Two replicas of one
 tree, both created with ``gemato create -t -H SHA1``: A is only ever updated with
 ``gemato update --incremental -H SHA1 <dir>``, B with the full ``gemato update -H SHA1
-<dir>``.  Every history of R rounds (2 quick, 3 thorough) is played: a round is one
+<dir>``.  Every history of R rounds (2 quick, 3 thorough - see depth_for) is played: a round is one
 applicable operation from {modify content keeping the size, modify content changing the
 size, add a file, delete a file, touch only, replace by a new inode with equal content}
 on one of three file slots, giving the file an explicit mtime in one of four classes
@@ -77,7 +77,8 @@ PID = 'C11'
 LEVEL = 'model_checking'
 RULE = ('hist: {UTC, XXX-3, XXX5} x {flat, nested layout} x {(clock mono, scan start on the second), (mono, +0.7 s), '
         '(back1, on the second), (back2, on the second)} x every history '
-        'of R rounds (R=2 quick; thorough: R=3 with whole-second scan start, R=2 with +0.7 s) of one applicable '
+        'of R rounds (R=2 quick; thorough: R=3 for (mono, on the second) in all zones and for back1/back2 in UTC, '
+        'R=2 for +0.7 s and for back1/back2 in the other two zones) of one applicable '
         'operation {modify_same_size, modify_other_size, touch, replace_equal} x slot x mtime class {T-1, T, '
         'T+0.5, T+1 relative to the previous (model) TIMESTAMP} | add x absent slot x mtime class | delete x slot '
         '| nested layout only: {append DIST line, append IGNORE line (each once), flip a digit of the DIST '
@@ -994,10 +995,14 @@ def replay(case, scratch):
     return replay_inflight(case, scratch)
 
 
-def depth_for(tier, frac):
-    if tier == 'quick':
+def depth_for(tier, frac, clock='mono', tz='utc'):
+    """Rounds per history.  thorough: 3 with the monotonic clock starting on the whole second (all zones) and
+    with the stepped-back clocks in UTC; 2 for +0.7 s and for the stepped-back clocks in the other two zones
+    (a third round there would add about 650 000 rounds, half as much again as everything else, and push the
+    tier past its 10 minutes on a loaded box; the two-round histories cross the step with every zone)."""
+    if tier == 'quick' or frac != 0:
         return 2
-    return 3 if frac == 0 else 2
+    return 3 if clock == 'mono' or tz == 'utc' else 2
 
 
 def shards(tier, seed):
@@ -1017,7 +1022,7 @@ def shards(tier, seed):
         if s[0] == 'inflight':
             return 1000
         n = len(initial_choices(s[2]))
-        return 3 * n if depth_for(tier, s[3]) == 2 else 3 * n * n
+        return 3 * n if depth_for(tier, s[3], s[5], s[1]) == 2 else 3 * n * n
     out.sort(key=lambda s: -cost(s))
     # one cheap shard whose first node is the smallest history that can show a time-zone dependence goes
     # first, so that the example kept for a signature tends to be a one-round history
@@ -1033,7 +1038,7 @@ def run_shard(spec, tier, seed, scratch):
     off0 = time.localtime(T0).tm_gmtoff
     with harness_env(tz):
         if fam == 'hist':
-            explore_hist(cfg, spec[4], depth_for(tier, frac), stats, scratch)
+            explore_hist(cfg, spec[4], depth_for(tier, frac, spec[5], tz), stats, scratch)
         else:
             explore_inflight(cfg, spec[4], stats, scratch)
     if time.localtime(T0).tm_gmtoff != off0 or gemato.cli.datetime is not _dt:
